@@ -35,10 +35,10 @@ def Tup(*ts):
 
 
 class T:
-    __slots__ = ("sort", "s", "cls")
+    __slots__ = ("sort", "s", "cls", "tr")
 
-    def __init__(self, sort, s, cls=None):
-        self.sort, self.s, self.cls = sort, s, cls
+    def __init__(self, sort, s, cls=None, tr=None):
+        self.sort, self.s, self.cls, self.tr = sort, s, cls, tr  # tr: precomputed truth value (SMT Bool text) if known
 
     def __repr__(self):
         return f"<{self.sort}:{self.s}>"
